@@ -15,7 +15,7 @@ func init() {
 		Run: runC14,
 		Explanation: "Decides structural necessary conditions of 'VDR reclaims what it may and reports exactly what it removed' (partial claim): " +
 			"W1 nothing outside the pipestance is touched: every path handed to os.RemoveAll by the VDR functions originates from Metadata path accessors (TempDir/enumerateFiles/enumerateTemp) or from keys of fileParamMap, whose keys are the paths produced by walking enumerateFiles(); Node.vdrKill touches no fork when an ancestor directory is a symlink, " +
-			"W2 what is reported is what is removed: the slice appended to a report's Paths is the slice the removal loop ranges over (or the content of the temp directory removed for the same metadata object), removal happens between the append and the report write, inside a critical section for the kill functions; removal errors of the per-file kill are recorded, " +
+			"W2 what is reported is what is removed: the slice appended to a report's Paths is the slice the removal loop ranges over (or the content of the temp directory removed for the same metadata object), removal happens between the append and the report write, inside a critical section for the kill functions; removal errors of the per-file kill are recorded; a cache entry whose size was added to a report leaves fileParamMap in the same call (directly or via a list whose every element is deleted), so a later vdrKillSome cannot count it again, " +
 			"W3 temp directories go with their phase: each clean*Temp is called only in the states that make it safe, sets its done-flag together with the removal and writes the partial report. " +
 			"NOT decided: equality of Count/Size with the bytes removed, completeness (no volatile file survives), merge arithmetic.",
 		Assumptions: commonAssumptions,
@@ -308,6 +308,7 @@ func runC14(c *an.Ctx) {
 	}
 	c.Floor("W2", "appends to a report's Paths", nPaths, 5)
 
+	ruleW2CountedOnce(c)
 	// ---------------- W3 ----------------
 	ruleW3(c)
 }
@@ -589,4 +590,114 @@ func keysOf(m map[string]bool) []string {
 		out = append(out, k)
 	}
 	return out
+}
+
+// W2 (counted once).  vdrKillSome runs repeatedly for the same fork (rolling removal).  A cache entry
+// whose size/count has been added to the report must leave the file cache in the same call - directly
+// (delete(fileParamMap, path)) or by being put on a list whose every element is deleted later in the
+// function.  An entry that stays behind with no keep-alive arguments is selected and counted again by
+// the next call: the report's count and byte total then exceed what was removed.
+func ruleW2CountedOnce(c *an.Ctx) {
+	p := c.P
+	fn := c.NeedFunc(pkgCore, "(*Fork).vdrKillSome")
+	cache := p.Field(pkgCore, "Fork", "fileParamMap")
+	sizeF := p.Field(pkgCore, "VDRKillReport", "Size")
+	if fn == nil || cache == nil || sizeF == nil {
+		c.Undecided("W2", "counted-once@(*Fork).vdrKillSome", token.NoPos, "anchor not found (function, Fork.fileParamMap or VDRKillReport.Size)")
+		return
+	}
+	isCacheMap := func(v ssa.Value) bool { return an.LoadsField(v, cache) }
+	// accumulations: store to Size of a value derived from a lookup cache[K]
+	n := 0
+	for _, st := range an.StoresToField(fn, sizeF) {
+		if st.Parent() != fn {
+			continue
+		}
+		sl := newSlice(fn)
+		sl.add(st.Val)
+		var key ssa.Value
+		for v := range sl.seen {
+			if lk, ok := v.(*ssa.Lookup); ok && isCacheMap(lk.X) {
+				key = lk.Index
+			}
+		}
+		if key == nil {
+			continue
+		}
+		n++
+		// lists whose every element is deleted from the cache later on
+		deletedLists := []ssa.Value{}
+		an.Instrs(fn, func(in ssa.Instruction) {
+			call, ok := in.(*ssa.Call)
+			if !ok {
+				return
+			}
+			args, isDel := an.IsBuiltinCall(call, "delete")
+			if !isDel || len(args) != 2 || !isCacheMap(args[0]) {
+				return
+			}
+			base := elemBase(args[1])
+			if base == nil {
+				return
+			}
+			// the delete is crossed on every iteration that loads the element
+			elemLoad, _ := args[1].(ssa.Instruction)
+			if elemLoad == nil {
+				return
+			}
+			w := an.Query{Fn: fn, After: elemLoad,
+				Target:  func(x ssa.Instruction) bool { return x == elemLoad || an.IsReturn(x) },
+				Barrier: func(x ssa.Instruction) bool { return x == ssa.Instruction(call) }}.Find()
+			if w == nil {
+				deletedLists = append(deletedLists, base)
+			}
+		})
+		barrier := func(x ssa.Instruction) bool {
+			call, ok := x.(*ssa.Call)
+			if !ok {
+				return false
+			}
+			if args, isDel := an.IsBuiltinCall(call, "delete"); isDel && len(args) == 2 && isCacheMap(args[0]) && args[1] == key {
+				return true
+			}
+			if args, isApp := an.IsBuiltinCall(call, "append"); isApp && len(args) == 2 {
+				if sliceBase(args[1]) == key || storedElem(args[1]) == key {
+					for _, dl := range deletedLists {
+						if sameSliceValue(dl, call) || sameSliceValue(dl, args[0]) {
+							return true
+						}
+					}
+				}
+			}
+			return false
+		}
+		w := an.Query{Fn: fn, After: st,
+			Target:  func(x ssa.Instruction) bool { return x == ssa.Instruction(st) || an.IsReturn(x) },
+			Barrier: barrier}.Find()
+		c.Check("W2", "counted-entry-leaves-cache@(*Fork).vdrKillSome", st.Pos(), w == nil,
+			fmt.Sprintf("an entry whose size is added to the kill report must be deleted from fileParamMap in the same call (directly, or via a list whose elements are all deleted: %d such lists); otherwise the next vdrKillSome counts it again; %s", len(deletedLists), c.WitnessString(w)))
+	}
+	c.Floor("W2", "report size accumulations fed from the file cache in vdrKillSome", n, 1)
+}
+
+// storedElem: spread is the one-element temporary of append(s, x); returns x.
+func storedElem(spread ssa.Value) ssa.Value {
+	sl, ok := spread.(*ssa.Slice)
+	if !ok {
+		return nil
+	}
+	al, ok := sl.X.(*ssa.Alloc)
+	if !ok {
+		return nil
+	}
+	for _, r := range an.Referrers(al) {
+		if ia, ok := r.(*ssa.IndexAddr); ok {
+			for _, r2 := range an.Referrers(ia) {
+				if st, ok := r2.(*ssa.Store); ok {
+					return st.Val
+				}
+			}
+		}
+	}
+	return nil
 }
